@@ -323,6 +323,14 @@ func checkC09(c *Ctx) {
 	ruleBroker(c)
 	ruleBroker2(c)
 	condRules(c, pubsubOwners, map[string]int{"W1": 5, "W2": 5, "W2b": 5, "W3": 20, "W4": 20, "W6": 20, "W7": 2})
+	// the LIFO / deque back-ends: a force push that mis-links the ring leaves the dispatcher with nothing to take
+	ruleForcePush(c)
+	ruleX10(c, "pubsub", "Deque", 8)
+	ruleD9v(c, map[string]bool{"pubsub": true}, 3)
+	// Broker.Wait and the parallel dispatch wait on a fun.WaitGroup
+	wgOwner := map[string]bool{"fun.WaitGroup": true}
+	condRules(c, wgOwner, map[string]int{"W1": 1, "W2": 1, "W2b": 1, "W3": 1, "W4": 2, "W6": 1, "W8": 1})
+	ruleL4(c, wgOwner, 3)
 }
 
 func checkC11(c *Ctx) {
@@ -335,6 +343,13 @@ func checkC11(c *Ctx) {
 	ruleSrv(c)
 	ruleO4(c)
 	ruleB2(c, map[string]bool{"srv": true}, 3)
+	// Service.Wait (and with it Orchestrator.Wait, Group) is a fun.WaitGroup.Wait; the orchestrator's and the pools'
+	// input is a pubsub.Queue whose Wait must hand out a queued service even after cancellation
+	wgOwner := map[string]bool{"fun.WaitGroup": true}
+	condRules(c, wgOwner, map[string]int{"W1": 1, "W2": 1, "W2b": 1, "W3": 1, "W4": 2, "W6": 1, "W8": 1})
+	ruleL4(c, wgOwner, 3)
+	condRules(c, queueOwner, map[string]int{"W1": 3, "W2": 3, "W2b": 3, "W3": 8, "W4": 8, "W6": 8})
+	ruleW9(c, queueOwner, 2)
 }
 
 func checkC12(c *Ctx) {
@@ -380,6 +395,10 @@ func checkC15(c *Ctx) {
 	ruleU7(c)
 	ruleU8(c)
 	lockRules(c, map[string]bool{"fun.limitExec": true, "fun.ttlExec": true}, map[string]int{"L1": 2})
+	// the StartGroup / Launch waiters are WaitGroup.Wait
+	wgOwner := map[string]bool{"fun.WaitGroup": true}
+	condRules(c, wgOwner, map[string]int{"W1": 1, "W2": 1, "W2b": 1, "W3": 1, "W4": 2, "W6": 1, "W8": 1})
+	ruleL4(c, wgOwner, 3)
 }
 
 func checkC16(c *Ctx) {
@@ -431,6 +450,7 @@ func checkC18(c *Ctx) {
 	ruleD6c(c)
 	ruleD6d(c)
 	ruleD6e(c)
+	ruleR1(c, allPkgs, 2)
 	ruleQ67(c)
 	ruleQ34(c, 3)
 }
@@ -453,6 +473,7 @@ func checkC20(c *Ctx) {
 	lockRules(c, pubsubOwners, map[string]int{"L1": 20, "L2": 8, "L3": 2})
 	ruleL4(c, pubsubOwners, 18)
 	ruleD5(c, 2)
+	ruleL5(c)
 	ruleQueueLinks(c)
 	condRules(c, pubsubOwners, map[string]int{"W1": 5, "W2": 5, "W2b": 5, "W3": 20, "W4": 20, "W6": 20, "W7": 2})
 }
